@@ -196,7 +196,8 @@ def run(run):
         f"over {len(G.kinds('base'))} leaf kinds (7 basic shapes, path variants, stroke, evenodd, style, invisible, use, clipPath, 3 gradient kinds, "
         f"nested svg, symbol, text and the unsupported set filter/mask/image/style/pattern/a/foreignObject, comment/PI/foreign namespace/title) and {len(G.kinds('groups'))} "
         "group kinds (6 attribute settings x child sequences <= 2 over 6 leaves, clipped groups) x configurations (full 28-config grid at depth 1, "
-        "corners elsewhere); CLI in a subprocess x 4 flag corners x {stdout, --output_file}. Oracle R4 over the serialised result; drop_unsupported failure rule. "
+        "corners elsewhere), each document additionally through the caller-parsed-tree entry SVG(lxml tree) (comments / PIs kept by the parser); text with unsupported descendants (a, image, animate); CLI in a subprocess x 4 flag corners x {stdout, --output_file}, "
+        "and --clip_to_viewbox on every translucent / clipped / plain group kind under 4 viewBoxes that leave children outside or cut them (one of them fed through stdin). Oracle R4 over the serialised result; drop_unsupported failure rule. "
         "Non-trivial = conversion returned normally and the source contained a construct the grammar forbids in outputs (distinct document+config)."
     )
     run.cov["bounds"] = {"max_children": 2 if run.tier == "quick" else 3, "ndigits": "0..6", "kinds": len(G.kinds("all"))}
